@@ -10,89 +10,626 @@ use crate::l1_choice::*;
 use crate::l1_limb::*;
 use crate::l2_core::*;
 use crate::l2_shift::*;
+use crate::l3_divlimb::*;
 use crate::l3_mul::*;
 use crate::l3_div_vt::*;
 verus! {
 
+// ---- local lemmas
+proof fn lemma_rng<const LIMBS: usize>(x: &Uint<LIMBS>)
+    ensures 0 <= x.v() < bp(LIMBS as nat), bp(LIMBS as nat) > 0
+{ lemma_val_bound(x.limbs@, LIMBS as nat); }
+
+/// B^n = 2 * 2^(64n-1)
+proof fn lemma_top_bit(n: nat)
+    requires n >= 1
+    ensures 2 * p2((64 * n - 1) as nat) == bp(n), p2((64 * n - 1) as nat) > 0
+{
+    lemma_bp_pow2(n);
+    lemma_pow2_unfold((64 * n) as nat);
+    lemma_pow2_pos((64 * n - 1) as nat);
+}
+
+
+/// arithmetic core of Algorithm 14.47 (HAC) as used by mul_mod_special, W = B^LIMBS, p = W - c
+proof fn lemma_mms_core<const LIMBS: usize>(a: int, b: int, lo0: int, hv: int, lo1: int, c1: int, lo2: int, c2: int, cv: int)
+    requires LIMBS >= 2, a >= 0, b >= 0,
+        0 <= lo0 < bp(LIMBS as nat), 0 <= hv < bp(LIMBS as nat), 0 <= lo1 < bp(LIMBS as nat), 0 <= lo2 < bp(LIMBS as nat),
+        1 <= cv < B(), 0 <= c1 < B(), 0 <= c2,
+        lo0 + hv * bp(LIMBS as nat) == a * b,
+        lo1 + c1 * bp(LIMBS as nat) == lo0 + hv * cv,
+        lo2 + c2 * bp(LIMBS as nat) == lo1 + (c1 + 1) * cv,
+    ensures c2 == 0 || c2 == 1,
+        lo2 - (if c2 == 1 { 0 } else { cv }) == (a * b) % (bp(LIMBS as nat) - cv),
+        0 <= (a * b) % (bp(LIMBS as nat) - cv) < bp(LIMBS as nat) - cv
+{
+    let ww = bp(LIMBS as nat); let p = ww - cv; let n = a * b;
+    lemma_bp_succ((LIMBS - 1) as nat); lemma_bp_succ((LIMBS - 2) as nat);
+    assert(ww >= B() * B()) by (nonlinear_arith) requires ww == B() * bp((LIMBS - 1) as nat), bp((LIMBS - 1) as nat) == B() * bp((LIMBS - 2) as nat), bp((LIMBS - 2) as nat) >= 1, B() > 0;
+    // S1 = lo0 + hi*c = lo1 + c1*W ; n - t = (hi + c1) * p
+    let t = lo1 + c1 * cv;
+    assert(n - t == (hv + c1) * p) by (nonlinear_arith)
+        requires n == lo0 + hv * ww, lo1 + c1 * ww == lo0 + hv * cv, t == lo1 + c1 * cv, p == ww - cv;
+    assert(n >= 0) by (nonlinear_arith) requires n == a * b, a >= 0, b >= 0;
+    let s2 = lo1 + (c1 + 1) * cv;
+    assert((c1 + 1) * cv == c1 * cv + cv) by (nonlinear_arith);
+    assert(c1 * cv <= (B() - 1) * (B() - 1)) by (nonlinear_arith) requires 0 <= c1 <= B() - 1, 0 <= cv <= B() - 1;
+    assert((B() - 1) * (B() - 1) == B() * B() - 2 * B() + 1) by (nonlinear_arith);
+    assert(c2 == 0 || c2 == 1) by (nonlinear_arith) requires lo2 + c2 * ww == s2, s2 < 2 * ww, lo2 >= 0, c2 >= 0, ww > 0;
+    assert(c2 * ww == (if c2 == 1 { ww } else { 0 })) by (nonlinear_arith) requires c2 == 0 || c2 == 1;
+    assert(t >= 0) by (nonlinear_arith) requires t == lo1 + c1 * cv, lo1 >= 0, c1 >= 0, cv >= 0;
+    // the quotient estimate is off by at most one: t < 2p is not needed, only t - p < p when the second addition overflows
+    let res = if c2 == 1 { t - p } else { t };
+    assert(0 <= res < p);
+    let qq = if c2 == 1 { hv + c1 + 1 } else { hv + c1 };
+    assert(n == p * qq + res) by (nonlinear_arith) requires n - t == (hv + c1) * p, res == (if c2 == 1 { t - p } else { t }), qq == (if c2 == 1 { hv + c1 + 1 } else { hv + c1 });
+    lemma_fundamental_div_mod_converse(n, p, qq, res);
+}
+
+/// conditional subtraction of the modulus after an addition: s in [0, 2p), out = s mod p
+proof fn lemma_cond_sub(s: int, p: int, ww: int, w: int, lt: bool)
+    requires 0 <= s < 2 * p, p < ww, 0 <= w < ww, lt == (s < p),
+        w == (if lt { s - p + ww } else { s - p })
+    ensures (w + (if lt { p } else { 0 })) % ww == s % p, s % p < p
+{
+    if lt {
+        lemma_small_mod(s as nat, p as nat);
+        lemma_mod_add_multiples_vanish(s, ww);
+        lemma_small_mod(s as nat, ww as nat);
+        assert(w + p == ww + s);
+    } else {
+        lemma_fundamental_div_mod_converse(s, p, 1, s - p);
+        lemma_small_mod(w as nat, ww as nat);
+    }
+}
+
+/// conditional addition of the modulus after a subtraction: d in [-p, p), out = d mod p
+proof fn lemma_cond_add(d: int, p: int, ww: int, out: int, neg: bool)
+    requires -p <= d < p, 0 < p < ww, 0 <= out < ww, neg == (d < 0),
+        out == (if neg { d + ww } else { d })
+    ensures (out + (if neg { p } else { 0 })) % ww == d % p, 0 <= d % p < p
+{
+    if neg {
+        lemma_mod_add_multiples_vanish(d + p, ww); lemma_small_mod((d + p) as nat, ww as nat);
+        lemma_mod_add_multiples_vanish(d, p); lemma_small_mod((d + p) as nat, p as nat);
+        assert(out + p == ww + (d + p));
+    } else {
+        lemma_small_mod(d as nat, ww as nat); lemma_small_mod(d as nat, p as nat);
+    }
+}
+
 //@@ subst \b(Self|Uint)::(ZERO|ONE|MAX|BITS|LOG2_BITS)\b(?!\() => \1::\2()
 //@@ subst \bUint::<(\w+)>::(ZERO|ONE|MAX|BITS)\b(?!\() => Uint::<\1>::\2()
-//@@ fn src/uint/add_mod.rs | impl<const LIMBS: usize> Uint<LIMBS> | add_mod | stub | props C07 C11
+//@@ fn src/uint/bit_and.rs | impl<const LIMBS: usize> Uint<LIMBS> | bitand_limb | body | props C05 C11
 impl<const LIMBS: usize> Uint<LIMBS> {
-#[verifier::external_body]
+pub const fn bitand_limb(&self, rhs: Limb) -> (ret__: Self)
+//@+
+    ensures forall|k: int| 0 <= k < LIMBS ==> ret__.limbs@[k].0 == self.limbs@[k].0 & rhs.0,
+        rhs.0 == 0 ==> ret__.v() == 0, rhs.0 == u64::MAX ==> ret__.v() == self.v()
+//@-
+{
+        let mut limbs = [Limb::ZERO; LIMBS];
+        let mut i = 0;
+        while i < LIMBS
+//@+
+    invariant i <= LIMBS, forall|k: int| 0 <= k < i ==> limbs@[k].0 == self.limbs@[k].0 & rhs.0,
+    decreases LIMBS - i,
+//@-
+{
+            limbs[i] = self.limbs[i].bitand(rhs);
+            i += 1;
+        }
+//@+
+    proof {
+        let m = rhs.0;
+        assert forall|k: int| 0 <= k < LIMBS && m == 0 implies limbs@[k].0 == 0 by {
+            let x = self.limbs@[k].0; assert(x & 0 == 0) by (bit_vector);
+        }
+        assert forall|k: int| 0 <= k < LIMBS && m == u64::MAX implies limbs@[k] == self.limbs@[k] by {
+            let x = self.limbs@[k].0; assert(x & 0xffff_ffff_ffff_ffffu64 == x) by (bit_vector);
+        }
+        if m == 0 { lemma_val_zero(limbs@, LIMBS as nat); }
+        if m == u64::MAX { lemma_val_ext(limbs@, self.limbs@, LIMBS as nat); }
+    }
+//@-
+        Self { limbs }
+    }
+}
+//@@ end
+//@@ fn src/non_zero.rs | impl NonZero<Limb> | new_unwrap | body | props C12 C11
+impl NonZero<Limb> {
+pub const fn new_unwrap(n: Limb) -> (ret__: Self)
+//@+
+    requires n.0 != 0
+    ensures ret__.0 == n
+//@-
+{
+        if n.is_nonzero().is_true_vartime() {
+            Self(n)
+        } else {
+            panic!("Invalid value: zero")
+        }
+    }
+}
+//@@ end
+//@@ fn src/uint/add_mod.rs | impl<const LIMBS: usize> Uint<LIMBS> | add_mod | body | props C07 C11
+impl<const LIMBS: usize> Uint<LIMBS> {
 pub const fn add_mod(&self, rhs: &Self, p: &Self) -> (ret__: Self)
 //@+
     requires self.v() + rhs.v() < 2 * p.v()
     ensures ret__.v() == (self.v() + rhs.v()) % p.v(), ret__.v() < p.v()
 //@-
 {
-    unimplemented!()
-}
+        let (w, carry) = self.adc(rhs, Limb::ZERO);
+//@+
+    let ghost w0 = w;
+//@-
+        // Attempt to subtract the modulus, to ensure the result is in the field.
+        let (w, borrow) = w.sbb(p, Limb::ZERO);
+        let (_, mask) = carry.sbb(Limb::ZERO, borrow);
+//@+
+    proof {
+        lemma_rng(self); lemma_rng(rhs); lemma_rng(p); lemma_rng(&w); lemma_rng(&w0);
+        let ww = bp(LIMBS as nat); let s = self.v() + rhs.v();
+        let c = carry.0 as int;
+        assert(c * ww == (if c == 1 { ww } else { 0 })) by (nonlinear_arith) requires c == 0 || c == 1;
+        assert(bb(borrow) * ww == (if bb(borrow) == 1 { ww } else { 0 })) by (nonlinear_arith) requires bb(borrow) == 0 || bb(borrow) == 1;
+        // mask == MAX  <=>  s < p
+        assert((mask.0 == u64::MAX) == (s < p.v()));
+        assert(mask.0 == 0 || mask.0 == u64::MAX);
+        lemma_cond_sub(s, p.v(), ww, w.v(), s < p.v());
+    }
+//@-
+        // If underflow occurred on the final limb, borrow = 0xfff...fff, otherwise
+        // borrow = 0x000...000. Thus, we use it as a mask to conditionally add the
+        // modulus.
+        w.wrapping_add(&p.bitand_limb(mask))
+    }
 }
 //@@ end
-//@@ fn src/uint/add_mod.rs | impl<const LIMBS: usize> Uint<LIMBS> | double_mod | stub | props C07 C11
+//@@ fn src/uint/add_mod.rs | impl<const LIMBS: usize> Uint<LIMBS> | double_mod | body | props C07 C11
 impl<const LIMBS: usize> Uint<LIMBS> {
-#[verifier::external_body]
 pub const fn double_mod(&self, p: &Self) -> (ret__: Self)
 //@+
     requires self.v() < p.v()
     ensures ret__.v() == (2 * self.v()) % p.v(), ret__.v() < p.v()
 //@-
 {
-    unimplemented!()
-}
+//@+
+    proof { if LIMBS == 0 { assert(self.v() == 0 && p.v() == 0); } }
+//@-
+        let (w, carry) = self.overflowing_shl1();
+//@+
+    let ghost w0 = w;
+//@-
+        // Attempt to subtract the modulus, to ensure the result is in the field.
+        let (w, borrow) = w.sbb(p, Limb::ZERO);
+        let (_, mask) = carry.sbb(Limb::ZERO, borrow);
+//@+
+    proof {
+        lemma_rng(self); lemma_rng(p); lemma_rng(&w); lemma_rng(&w0);
+        let ww = bp(LIMBS as nat); let s = 2 * self.v();
+        let c = carry.0 as int;
+        assert(c * ww == (if c == 1 { ww } else { 0 })) by (nonlinear_arith) requires c == 0 || c == 1;
+        assert(bb(borrow) * ww == (if bb(borrow) == 1 { ww } else { 0 })) by (nonlinear_arith) requires bb(borrow) == 0 || bb(borrow) == 1;
+        assert((mask.0 == u64::MAX) == (s < p.v()));
+        assert(mask.0 == 0 || mask.0 == u64::MAX);
+        lemma_cond_sub(s, p.v(), ww, w.v(), s < p.v());
+    }
+//@-
+        // If underflow occurred on the final limb, borrow = 0xfff...fff, otherwise
+        // borrow = 0x000...000. Thus, we use it as a mask to conditionally add the
+        // modulus.
+        w.wrapping_add(&p.bitand_limb(mask))
+    }
 }
 //@@ end
-//@@ fn src/uint/sub_mod.rs | impl<const LIMBS: usize> Uint<LIMBS> | sub_mod | stub | props C07 C11
+//@@ fn src/uint/add_mod.rs | impl<const LIMBS: usize> Uint<LIMBS> | add_mod_special | body | props C07 C11
 impl<const LIMBS: usize> Uint<LIMBS> {
-#[verifier::external_body]
+pub const fn add_mod_special(&self, rhs: &Self, c: Limb) -> (ret__: Self)
+//@+
+    requires LIMBS >= 1, c.0 >= 1, self.v() + rhs.v() < 2 * (bp(LIMBS as nat) - c.0 as int)
+    ensures ret__.v() == (self.v() + rhs.v()) % (bp(LIMBS as nat) - c.0 as int), ret__.v() < bp(LIMBS as nat) - c.0 as int
+//@-
+{
+        // `Uint::adc` also works with a carry greater than 1.
+        let (out, carry) = self.adc(rhs, c);
+        // If overflow occurred, then above addition of `c` already accounts
+        // for the overflow. Otherwise, we need to subtract `c` again, which
+        // in that case cannot underflow.
+        let l = carry.0.wrapping_sub(1) & c.0;
+//@+
+    proof {
+        lemma_rng(self); lemma_rng(rhs); lemma_rng(&out);
+        let ww = bp(LIMBS as nat); let cv = c.0 as int; let p = ww - cv; let s = self.v() + rhs.v(); let cy = carry.0 as int;
+        lemma_bp_succ((LIMBS - 1) as nat);
+        assert(ww >= B()) by (nonlinear_arith) requires ww == B() * bp((LIMBS - 1) as nat), bp((LIMBS - 1) as nat) >= 1;
+        assert(cy == 0 || cy == 1) by (nonlinear_arith) requires out.v() + cy * ww == s + cv, s + cv < 2 * ww, out.v() >= 0, cy >= 0, ww > 0;
+        assert(cy * ww == (if cy == 1 { ww } else { 0 })) by (nonlinear_arith) requires cy == 0 || cy == 1;
+        let cw = carry.0; let c0 = c.0;
+        let ws = cw.wrapping_sub(1);
+        lemma_wsub_u64(cw, 1, ws);
+        assert(l == (if cw == 1 { 0 } else { c0 })) by (bit_vector) requires l == (sub(cw, 1) & c0), cw == 0 || cw == 1;
+        if cy == 1 {
+            // s + c >= W  => s >= p ; out = s + c - W = s - p
+            lemma_fundamental_div_mod_converse(s, p, 1, s - p);
+            lemma_small_mod(out.v() as nat, ww as nat);
+        } else {
+            // s + c < W => s < p ; out - c = s
+            lemma_small_mod(s as nat, p as nat);
+            lemma_small_mod(s as nat, ww as nat);
+        }
+    }
+//@-
+        out.wrapping_sub(&Self::from_word(l))
+    }
+}
+//@@ end
+//@@ fn src/uint/sub_mod.rs | impl<const LIMBS: usize> Uint<LIMBS> | sub_mod | body | props C07 C11
+impl<const LIMBS: usize> Uint<LIMBS> {
 pub const fn sub_mod(&self, rhs: &Self, p: &Self) -> (ret__: Self)
 //@+
     requires -p.v() <= self.v() - rhs.v() < p.v(), p.v() > 0
     ensures ret__.v() == (self.v() - rhs.v()) % p.v(), ret__.v() < p.v()
 //@-
 {
-    unimplemented!()
-}
+        let (out, mask) = self.sbb(rhs, Limb::ZERO);
+//@+
+    proof {
+        lemma_rng(self); lemma_rng(rhs); lemma_rng(p); lemma_rng(&out);
+        let ww = bp(LIMBS as nat); let d = self.v() - rhs.v();
+        assert(bb(mask) * ww == (if bb(mask) == 1 { ww } else { 0 })) by (nonlinear_arith) requires bb(mask) == 0 || bb(mask) == 1;
+        lemma_cond_add(d, p.v(), ww, out.v(), d < 0);
+    }
+//@-
+        // If underflow occurred on the final limb, borrow = 0xfff...fff, otherwise
+        // borrow = 0x000...000. Thus, we use it as a mask to conditionally add the modulus.
+        out.wrapping_add(&p.bitand_limb(mask))
+    }
 }
 //@@ end
-//@@ fn src/uint/sub_mod.rs | impl<const LIMBS: usize> Uint<LIMBS> | sub_mod_with_carry | stub | props C07 C08 C11
+//@@ fn src/uint/sub_mod.rs | impl<const LIMBS: usize> Uint<LIMBS> | sub_mod_with_carry | body | props C07 C08 C11
 impl<const LIMBS: usize> Uint<LIMBS> {
-#[verifier::external_body]
 pub const fn sub_mod_with_carry(&self, carry: Limb, rhs: &Self, p: &Self) -> (ret__: Self)
 //@+
     requires carry.0 <= 1, -p.v() <= self.v() + carry.0 as int * bp(LIMBS as nat) - rhs.v() < p.v(), p.v() > 0
     ensures ret__.v() == (self.v() + carry.0 as int * bp(LIMBS as nat) - rhs.v()) % p.v(), ret__.v() < p.v()
 //@-
 {
-    unimplemented!()
-}
+        debug_assert!(carry.0 <= 1);
+        let (out, borrow) = self.sbb(rhs, Limb::ZERO);
+        // The new `borrow = Word::MAX` iff `carry == 0` and `borrow == Word::MAX`.
+//@+
+    let ghost cw = carry.0; let ghost bw = borrow.0;
+    proof {
+        assert(0 < B()); lemma_mod_self_0(B()); lemma_small_mod((B() - 1) as nat, B() as nat);
+        assert(!0u64 == 0xffff_ffff_ffff_ffffu64) by (bit_vector);
+        assert(!0xffff_ffff_ffff_ffffu64 == 0u64) by (bit_vector);
+        assert(0xffff_ffff_ffff_ffffu64 & bw == bw) by (bit_vector);
+        assert(0u64 & bw == 0u64) by (bit_vector);
+    }
+//@-
+        let mask = carry.wrapping_neg().not().bitand(borrow);
+//@+
+    proof {
+        lemma_rng(self); lemma_rng(rhs); lemma_rng(p); lemma_rng(&out);
+        let ww = bp(LIMBS as nat); let c = carry.0 as int; let d = self.v() + c * ww - rhs.v();
+        assert(c * ww == (if c == 1 { ww } else { 0 })) by (nonlinear_arith) requires c == 0 || c == 1;
+        assert(bb(borrow) * ww == (if bb(borrow) == 1 { ww } else { 0 })) by (nonlinear_arith) requires bb(borrow) == 0 || bb(borrow) == 1;
+        assert((mask.0 == u64::MAX) == (c == 0 && borrow.0 == u64::MAX));
+        assert(mask.0 == 0 || mask.0 == u64::MAX);
+        assert((mask.0 == u64::MAX) == (d < 0));
+        lemma_cond_add(d, p.v(), ww, out.v(), d < 0);
+    }
+//@-
+        // If underflow occurred on the final limb, borrow = 0xfff...fff, otherwise
+        // borrow = 0x000...000. Thus, we use it as a mask to conditionally add the modulus.
+        out.wrapping_add(&p.bitand_limb(mask))
+    }
 }
 //@@ end
-//@@ fn src/uint/neg_mod.rs | impl<const LIMBS: usize> Uint<LIMBS> | neg_mod | stub | props C07 C11
+//@@ fn src/uint/sub_mod.rs | impl<const LIMBS: usize> Uint<LIMBS> | sub_mod_special | body | props C07 C11
 impl<const LIMBS: usize> Uint<LIMBS> {
-#[verifier::external_body]
+pub const fn sub_mod_special(&self, rhs: &Self, c: Limb) -> (ret__: Self)
+//@+
+    requires LIMBS >= 1, c.0 >= 1, -(bp(LIMBS as nat) - c.0 as int) <= self.v() - rhs.v() < bp(LIMBS as nat) - c.0 as int
+    ensures ret__.v() == (self.v() - rhs.v()) % (bp(LIMBS as nat) - c.0 as int), ret__.v() < bp(LIMBS as nat) - c.0 as int
+//@-
+{
+        let (out, borrow) = self.sbb(rhs, Limb::ZERO);
+        // If underflow occurred, then we need to subtract `c` to account for
+        // the underflow. This cannot underflow due to the assumption
+        // `self - rhs >= -p`.
+        let l = borrow.0 & c.0;
+//@+
+    proof {
+        lemma_rng(self); lemma_rng(rhs); lemma_rng(&out);
+        let ww = bp(LIMBS as nat); let cv = c.0 as int; let p = ww - cv; let d = self.v() - rhs.v();
+        lemma_bp_succ((LIMBS - 1) as nat);
+        assert(ww >= B()) by (nonlinear_arith) requires ww == B() * bp((LIMBS - 1) as nat), bp((LIMBS - 1) as nat) >= 1;
+        assert(bb(borrow) * ww == (if bb(borrow) == 1 { ww } else { 0 })) by (nonlinear_arith) requires bb(borrow) == 0 || bb(borrow) == 1;
+        let bw = borrow.0; let c0 = c.0;
+        assert(l == (if bw == 0xffff_ffff_ffff_ffffu64 { c0 } else { 0 })) by (bit_vector) requires l == (bw & c0), bw == 0 || bw == 0xffff_ffff_ffff_ffffu64;
+        if d < 0 {
+            // out = d + W ; out - c = d + p
+            lemma_small_mod((d + p) as nat, ww as nat);
+            lemma_mod_add_multiples_vanish(d, p); lemma_small_mod((d + p) as nat, p as nat);
+        } else {
+            lemma_small_mod(d as nat, ww as nat); lemma_small_mod(d as nat, p as nat);
+        }
+    }
+//@-
+        out.wrapping_sub(&Self::from_word(l))
+    }
+}
+//@@ end
+//@@ fn src/uint/neg_mod.rs | impl<const LIMBS: usize> Uint<LIMBS> | neg_mod | body | props C07 C11
+impl<const LIMBS: usize> Uint<LIMBS> {
 pub const fn neg_mod(&self, p: &Self) -> (ret__: Self)
 //@+
     requires self.v() < p.v()
     ensures ret__.v() == (p.v() - self.v()) % p.v(), ret__.v() < p.v()
 //@-
 {
-    unimplemented!()
-}
+        let z = self.is_nonzero();
+        let mut ret = p.sbb(self, Limb::ZERO).0;
+//@+
+    let ghost r0 = ret;
+//@-
+        let mut i = 0;
+        while i < LIMBS
+//@+
+    invariant 0 <= i <= LIMBS, z.wf(),
+        forall|k: int| 0 <= k < i ==> ret.limbs@[k].0 == (if z.t() { r0.limbs@[k].0 } else { 0 }),
+        forall|k: int| i <= k < LIMBS ==> ret.limbs@[k] == r0.limbs@[k],
+    decreases LIMBS - i,
+//@-
+{
+            // Set ret to 0 if the original value was 0, in which
+            // case ret would be p.
+            ret.limbs[i].0 = z.if_true_word(ret.limbs[i].0);
+            i += 1;
+        }
+//@+
+    proof {
+        lemma_rng(self); lemma_rng(p); lemma_rng(&r0);
+        let ww = bp(LIMBS as nat);
+        assert(0 * ww == 0);
+        assert(1 * ww == ww);
+        if z.t() {
+            lemma_val_ext(ret.limbs@, r0.limbs@, LIMBS as nat);
+            lemma_small_mod((p.v() - self.v()) as nat, p.v() as nat);
+        } else {
+            lemma_val_zero(ret.limbs@, LIMBS as nat);
+            lemma_mod_self_0(p.v());
+        }
+    }
+//@-
+        ret
+    }
 }
 //@@ end
-//@@ fn src/modular/div_by_2.rs | - | div_by_2 | stub | props C07 C08 C11
-#[verifier::external_body]
+//@@ fn src/uint/neg_mod.rs | impl<const LIMBS: usize> Uint<LIMBS> | neg_mod_special | body | props C07 C11
+impl<const LIMBS: usize> Uint<LIMBS> {
+pub const fn neg_mod_special(&self, c: Limb) -> (ret__: Self)
+//@+
+    requires LIMBS >= 1, c.0 >= 1, self.v() <= bp(LIMBS as nat) - c.0 as int
+    ensures ret__.v() == (-self.v()) % (bp(LIMBS as nat) - c.0 as int), ret__.v() < bp(LIMBS as nat) - c.0 as int
+//@-
+{
+//@+
+    proof {
+        lemma_rng(self);
+        lemma_bp_succ((LIMBS - 1) as nat);
+        assert(bp(LIMBS as nat) >= B()) by (nonlinear_arith) requires bp(LIMBS as nat) == B() * bp((LIMBS - 1) as nat), bp((LIMBS - 1) as nat) >= 1;
+    }
+//@-
+        Self::ZERO().sub_mod_special(self, c)
+    }
+}
+//@@ end
+//@@ fn src/modular/div_by_2.rs | - | div_by_2 | body | props C07 C08 C11
 pub const fn div_by_2<const LIMBS: usize>(
     a: &Uint<LIMBS>,
     modulus: &Odd<Uint<LIMBS>>,
 ) -> (ret__: Uint<LIMBS>)
 //@+
-    requires LIMBS >= 1, modulus.0.v() % 2 == 1, a.v() < modulus.0.v()
+    requires 1 <= LIMBS < 0x400_0000, modulus.0.v() % 2 == 1, a.v() < modulus.0.v()
     ensures ret__.v() < modulus.0.v(), (2 * ret__.v()) % modulus.0.v() == a.v()
 //@-
 {
-    unimplemented!()
+    // We are looking for such `b` that `b + b = a mod modulus`.
+    // Two possibilities:
+    // - if `a` is even, we can just divide by 2;
+    // - if `a` is odd, we divide `(a + modulus)` by 2.
+    // Note that this also works if `a` is a Montgomery representation modulo `modulus`
+    // of some integer `x`.
+    // If `b + b = a mod modulus` it means that `y + y = x mod modulus` where `y` is the integer
+    // whose Montgomery representation is `b`.
+    let is_odd = a.is_odd();
+    let (if_odd, carry) = a.adc(&modulus.0, Limb::ZERO);
+//@+
+    let ghost carry0 = carry;
+//@-
+    let carry = Limb::select(Limb::ZERO, carry, is_odd);
+//@+
+    proof {
+        lemma_rng(a); lemma_rng(&modulus.0); lemma_rng(&if_odd);
+        let ww = bp(LIMBS as nat); let m = modulus.0.v(); let av = a.v(); let c = carry.0 as int;
+        let hh = p2((64 * LIMBS - 1) as nat);
+        lemma_top_bit(LIMBS as nat);
+        let s = if is_odd.t() { if_odd.v() } else { av };
+        let r = s / 2 + (if c == 1 { hh } else { 0 });
+        if is_odd.t() {
+            assert(c == 0 || c == 1);
+            assert(c * ww == (if c == 1 { ww } else { 0 })) by (nonlinear_arith) requires c == 0 || c == 1;
+            assert((av + m) % 2 == 0);
+            assert(2 * r == av + m);
+            lemma_fundamental_div_mod_converse(av + m, m, 1, av);
+        } else {
+            assert(c == 0);
+            assert(2 * r == av);
+            lemma_small_mod(av as nat, m as nat);
+        }
+        assert(r < m);
+        assert((2 * r) % m == av);
+        assert(0 <= s / 2 < hh);
+        assert forall|v: int, k: nat| k == 64 * LIMBS - 1 && 0 <= v < p2(k) implies #[trigger] (v / p2(k)) == 0 by {
+            lemma_basic_div(v, p2(k));
+        }
+        assert(0int % 2 == 0);
+    }
+//@-
+    Uint::<LIMBS>::select(a, &if_odd, is_odd)
+        .shr1()
+        .set_bit(Uint::<LIMBS>::BITS() - 1, carry.is_nonzero())
+}
+//@@ end
+//@@ fn src/uint/mul_mod.rs | - | mac_by_limb | body | props C07 C11
+pub const fn mac_by_limb<const LIMBS: usize>(
+    a: &Uint<LIMBS>,
+    b: &Uint<LIMBS>,
+    c: Limb,
+    carry: Limb,
+) -> (ret__: (Uint<LIMBS>, Limb))
+//@+
+    ensures ret__.0.v() + ret__.1.0 as int * bp(LIMBS as nat) == a.v() + b.v() * c.0 as int + carry.0 as int
+//@-
+{
+//@+
+    let ghost a0 = *a; let ghost carry0 = carry;
+//@-
+    let mut i = 0;
+    let mut a = *a;
+    let mut carry = carry;
+//@+
+    proof { lemma_bp_succ(0); assert(0 * c.0 as int == 0); }
+//@-
+    while i < LIMBS
+//@+
+    invariant 0 <= i <= LIMBS,
+        forall|k: int| i <= k < LIMBS ==> a.limbs@[k] == a0.limbs@[k],
+        val(a.limbs@, i as nat) + carry.0 as int * bp(i as nat) == val(a0.limbs@, i as nat) + val(b.limbs@, i as nat) * c.0 as int + carry0.0 as int,
+    decreases LIMBS - i,
+//@-
+{
+//@+
+    let ghost ab = a.limbs@; let ghost cb = carry;
+//@-
+        let (__t0, __t1) = a.limbs[i].mac(b.limbs[i], c, carry); a.limbs[i] = __t0; carry = __t1;
+//@+
+    proof {
+        lemma_val_ext(ab, a.limbs@, i as nat);
+        lemma_bp_succ(i as nat);
+        let pk = bp(i as nat); let x = __t0.0 as int; let c1 = carry.0 as int; let c0 = cb.0 as int;
+        let ai = a0.limbs@[i as int].0 as int; let bi = b.limbs@[i as int].0 as int; let cv = c.0 as int;
+        assert(x + c1 * B() == ai + bi * cv + c0);
+        assert(x * pk + c1 * (B() * pk) == ai * pk + (bi * pk) * cv + c0 * pk) by (nonlinear_arith) requires x + c1 * B() == ai + bi * cv + c0;
+        assert((val(b.limbs@, i as nat) + bi * pk) * cv == val(b.limbs@, i as nat) * cv + (bi * pk) * cv) by (nonlinear_arith);
+    }
+//@-
+        i += 1;
+    }
+    (a, carry)
+}
+//@@ end
+//@@ fn src/uint/mul_mod.rs | impl<const LIMBS: usize> Uint<LIMBS> | mul_mod_special | body | props C07 C11
+impl<const LIMBS: usize> Uint<LIMBS> {
+pub const fn mul_mod_special(&self, rhs: &Self, c: Limb) -> (ret__: Self)
+//@+
+    requires LIMBS >= 1, 2 * LIMBS <= usize::MAX, c.0 >= 1
+    ensures ret__.v() == (self.v() * rhs.v()) % (bp(LIMBS as nat) - c.0 as int), ret__.v() < bp(LIMBS as nat) - c.0 as int
+//@-
+{
+//@+
+    let ghost rhs0 = *rhs;
+//@-
+        // We implicitly assume `LIMBS > 0`, because `Uint<0>` doesn't compile.
+        // Still the case `LIMBS == 1` needs special handling.
+        if LIMBS == 1 {
+//@+
+    proof {
+        lemma_bp1();
+        lemma_val_single(self.limbs@, 1); lemma_val_single(rhs.limbs@, 1);
+        let c0 = c.0; let m = 0u64.wrapping_sub(c0);
+        assert(m as int == B() - c0 as int);
+    }
+//@-
+            let reduced = mul_rem(
+                self.limbs[0],
+                rhs.limbs[0],
+                NonZero::<Limb>::new_unwrap(Limb(Word::MIN.wrapping_sub(c.0))),
+            );
+//@+
+    proof {
+        let n = self.v() * rhs0.v(); let p = B() - c.0 as int;
+        assert(n >= 0) by (nonlinear_arith) requires n == self.v() * rhs0.v(), self.v() >= 0, rhs0.v() >= 0;
+        lemma_mod_pos_bound(n, p);
+    }
+//@-
+            return Self::from_word(reduced.0);
+        }
+        let (lo, hi) = self.split_mul(rhs);
+//@+
+    let ghost lo0 = lo;
+//@-
+        // Now use Algorithm 14.47 for the reduction
+        let (lo, carry) = mac_by_limb(&lo, &hi, c, Limb::ZERO);
+//@+
+    let ghost lo1 = lo; let ghost carry1 = carry;
+    proof {
+        lemma_rng(&lo0); lemma_rng(&hi); lemma_rng(&lo1); lemma_rng(self); lemma_rng(&rhs0);
+        let cv = c.0 as int; let c1 = carry1.0 as int;
+        assert((c1 + 1) * cv <= 0xffff_ffff_ffff_ffff * 0x1_0000_0000_0000_0000) by (nonlinear_arith) requires 0 <= c1 <= 0xffff_ffff_ffff_ffff, 0 <= cv <= 0xffff_ffff_ffff_ffff;
+    }
+//@-
+        let (lo, carry) = {
+            let rhs = (carry.0 as WideWord + 1) * c.0 as WideWord;
+            lo.adc(&Self::from_wide_word(rhs), Limb::ZERO)
+        };
+//@+
+    let ghost lo2 = lo; let ghost carry2 = carry;
+//@-
+        let (lo, _) = {
+            let rhs = carry.0.wrapping_sub(1) & c.0;
+//@+
+    proof {
+        lemma_rng(&lo2);
+        lemma_mms_core::<LIMBS>(self.v(), rhs0.v(), lo0.v(), hi.v(), lo1.v(), carry1.0 as int, lo2.v(), carry2.0 as int, c.0 as int);
+        let cw = carry2.0; let c0 = c.0; let ws = cw.wrapping_sub(1);
+        lemma_wsub_u64(cw, 1, ws);
+        assert(rhs == (if cw == 1 { 0 } else { c0 })) by (bit_vector) requires rhs == (sub(cw, 1) & c0), cw == 0 || cw == 1;
+        assert(0u64 >> 63 == 0) by (bit_vector);
+        let n = self.v() * rhs0.v(); let p = bp(LIMBS as nat) - c.0 as int;
+        assert(lo2.v() - rhs as int == n % p);
+        lemma_small_mod((n % p) as nat, bp(LIMBS as nat) as nat);
+    }
+//@-
+            lo.sbb(&Self::from_word(rhs), Limb::ZERO)
+        };
+        lo
+    }
+}
+//@@ end
+//@@ fn src/uint/mul_mod.rs | impl<const LIMBS: usize> Uint<LIMBS> | mul_mod_vartime | body | props C07 C11 C15
+impl<const LIMBS: usize> Uint<LIMBS> {
+pub fn mul_mod_vartime(&self, rhs: &Uint<LIMBS>, p: &NonZero<Uint<LIMBS>>) -> (ret__: Uint<LIMBS>)
+//@+
+    requires 1 <= LIMBS < 0x400_0000, p.0.v() != 0
+    ensures ret__.v() == (self.v() * rhs.v()) % p.0.v(), ret__.v() < p.0.v()
+//@-
+{
+//@+
+    proof {
+        lemma_rng(self); lemma_rng(rhs); lemma_rng(&p.0);
+        let n = self.v() * rhs.v();
+        assert(n >= 0) by (nonlinear_arith) requires n == self.v() * rhs.v(), self.v() >= 0, rhs.v() >= 0;
+        lemma_mod_pos_bound(n, p.0.v());
+    }
+//@-
+        let lo_hi = self.split_mul(rhs);
+        Self::rem_wide_vartime(lo_hi, p)
+    }
 }
 //@@ end
 
